@@ -44,6 +44,10 @@ type Options struct {
 	Only     map[string]bool   // replay: execute only the inputs with these ids
 	Override map[string][]byte // replay: exact bytes for mutation inputs (id -> content)
 	Parts    map[string]bool   // which parts to run (empty = all)
+	// Cursor: file that names the input being fed (an input that terminates the process leaves its id there)
+	Cursor string
+	// Except: inputs not to feed (they terminated the process in an earlier run)
+	Except map[string]bool
 }
 
 type Driver struct {
@@ -75,11 +79,15 @@ func New(opt Options, w *trace.Writer) (*Driver, error) {
 }
 
 func (d *Driver) want(id string) bool {
-	if d.opt.Only == nil {
-		return true
+	if d.opt.Except[id] || (d.opt.Only != nil && !d.opt.Only[id]) {
+		return false
 	}
 
-	return d.opt.Only[id]
+	if d.opt.Cursor != "" {
+		_ = os.WriteFile(d.opt.Cursor, []byte(id), 0o600)
+	}
+
+	return true
 }
 
 func (d *Driver) part(name string) bool {
